@@ -103,7 +103,11 @@ def trees(draw, max_changes=4, max_files=3, min_changes=0,
     draw(_meta_attrs(main, p_present=5))
     changes = []
 
-    for _ in range(draw(st.integers(min_changes, max_changes))):
+    nchanges = draw(st.sampled_from(
+        [n for n in (0, 1, 1, 2, 2, 3, 3, 4, 4)
+         if min_changes <= n <= max_changes] or [min_changes]))
+
+    for _ in range(nchanges):
         ca = {}
         _maybe(ca, draw, 'encoding', _enc, 2)
         ceff = ca.get('encoding') or main_eff
